@@ -151,10 +151,11 @@ def run(ctx):
         histories = histories[:: 1]
     cfg0 = dbside.Cfg()
     for hi, hist in enumerate(histories):
-        dbfn = os.path.join(ctx.scratch, "h.db")
-        for suffix in ("", ".bak"):
-            if os.path.exists(dbfn + suffix):
-                os.unlink(dbfn + suffix)
+        # a fresh file name per history: a failed update of an earlier history may leave a rollback journal next to
+        # its database file, which sqlite would apply to a new database created under the same name
+        for old in [x for x in os.listdir(ctx.scratch) if x.startswith("h") and ".db" in x]:
+            os.unlink(os.path.join(ctx.scratch, old))
+        dbfn = os.path.join(ctx.scratch, "h%d.db" % hi)
         path = dbside.write_lines(os.path.join(ctx.scratch, "h.gff3"), base_lines)
         db, rep = dbside.py_create(path, cfg0, dbfn=dbfn)
         ref = Ref()
@@ -182,6 +183,7 @@ def run(ctx):
                     got = "ok"
                 except Exception as ex:
                     got = "err " + dbside.err_name(ex)
+                    inp["exception"] = repr(ex)
                 cmds.append(dbside.cmd_update(lines, cfg)); exp.append(got); tags.append(("update", repr(inp)))
                 if want != "ok":
                     if got == "ok":
@@ -248,10 +250,9 @@ def run(ctx):
     lines = [feat_line("e", ["d"]), feat_line(None, ["a"]), feat_line("f", ["e"])]
     for fail_at in [None, 0, 1, 2, 3]:
         for op in ("update", "delete"):
-            dbfn = os.path.join(ctx.scratch, "b.db")
-            for suffix in ("", ".bak"):
-                if os.path.exists(dbfn + suffix):
-                    os.unlink(dbfn + suffix)
+            for old in [x for x in os.listdir(ctx.scratch) if x.startswith("b") and ".db" in x]:
+                os.unlink(os.path.join(ctx.scratch, old))
+            dbfn = os.path.join(ctx.scratch, "b%s_%s.db" % (fail_at, op))
             path = dbside.write_lines(os.path.join(ctx.scratch, "b.gff3"), base_lines)
             db, rep = dbside.py_create(path, cfg0, dbfn=dbfn)
             db.conn.commit()
